@@ -26,6 +26,24 @@ def main():
             out = {"goal": name, "cfg": cfg, "K": consts["K"], "Q": consts["Q"], "cids": cids, "behaviour": beh}
             json.dump(out, open(os.path.join(VERIF, "spec", "witness", "tracker_%s.json" % name), "w"))
             print(cfg, "witness of", len(beh), "states", "%.0fs" % r.wall)
+        # branch-coverage witnesses: one shortest behaviour per (action, branch tag)
+        for cfg in sorted(f for f in os.listdir(d) if f.startswith("Tracker_cover_") and f.endswith(".cfg")):
+            r = tla.run_tlc(d, "TrackerCover.tla", cfg, workers=1, timeout=6000, heap="16g", extra=["-continue"])
+            behs = tla.parse_error_traces(r.out)
+            consts = {}
+            for line in open(os.path.join(d, cfg)):
+                parts = line.split("=")
+                if len(parts) == 2 and parts[0].strip() in ("K", "Q"):
+                    consts[parts[0].strip()] = int(parts[1])
+            name = cfg[len("Tracker_cover_"):-4]
+            outl = []
+            for i, beh in enumerate(behs):
+                a = beh[-1]["state"]["act"]
+                outl.append({"goal": "cover-%s-%d:%s" % (name, i, a.get("name")), "tag": [a.get("name"), a.get("br")],
+                             "cfg": cfg, "K": consts["K"], "Q": consts["Q"],
+                             "cids": sorted(beh[0]["state"]["st"].keys()), "behaviour": beh})
+            json.dump(outl, open(os.path.join(VERIF, "spec", "witness", "trackercover_%s.json" % name), "w"))
+            print(cfg, len(behs), "witnesses", "%.0fs" % r.wall, "distinct", r.distinct)
     finally:
         shutil.rmtree(d, ignore_errors=True)
 
